@@ -20,7 +20,7 @@ RULE = ("every Exception subclass of builtins and Pyro5.errors x argument tuples
 ASSUMPTIONS = ["classes that cannot be constructed from the value domain (e.g. ExceptionGroup) are counted as skipped",
                "StopIteration raised from an iterator's __next__ is the end of the stream, not an exception, so it is not used for the stream kind",
                "builtin slot attributes (OSError.filename, ImportError.name, ...) are neither args nor custom attributes"]
-REQUIRED_REACH = ["aftermath_cases", "concurrent_exceptions_checked", "exc_ok", "kind_plain", "kind_propget", "kind_propset", "kind_batch", "kind_stream", "unserialisable_ok", "unknown_class_ok", "next_call_ok", "codec_baseexc_ok", "handover_cases_ok"]
+REQUIRED_REACH = ["aftermath_cases", "concurrent_exceptions_checked", "exc_ok", "kind_plain", "kind_propget", "kind_propset", "kind_batch", "kind_stream", "unserialisable_ok", "unknown_class_ok", "next_call_ok", "codec_baseexc_ok", "handover_cases_ok", "big_batches"]
 SHARD_TIMEOUT = {"quick": 240, "thorough": 2800}
 
 ARG_SHAPES = [(), ("msg",), ("msg", 2), (2, "strerror"), ("é\x00x", [1, {"k": None}], 2 ** 70, 1.5), ({"d": [1, 2.5, "s"]},), (None,), ("a", "b", "c", "d", "e", "f")]
@@ -530,6 +530,13 @@ def run_shard(shard, rec):
                 tokn[0] += 1
                 check_case(fx, p, armed, registry[clsname], clsname, ("after the fallback", 2), {"custom_a": 1}, sername, kind, rec, "tok%d" % tokn[0])
                 rec.count("aftermath_cases")
+        # a failing call at the end of a very long batch (bulk results before it): it still arrives as that call's exception
+        if sername != "marshal":
+            for nbefore in (1200, 4500):
+                tokn[0] += 1
+                rec.case(("bigbatch", nbefore, sername, fx.servertype), nontrivial=True)
+                check_case(fx, p, armed, ValueError, "builtins.ValueError", ("bad value", 42), {"custom_a": [1, "x"]}, sername, "batch%d" % nbefore, rec, "tok%d" % tokn[0])
+                rec.count("big_batches")
         p._pyroRelease()
         reregistration_phase(fx, sername, rec)
         concurrent_phase(fx, sername, registry, rec, r)
